@@ -5,6 +5,7 @@ import (
 	"context"
 	"errors"
 	"fmt"
+	log "go.arcalot.io/log/v2"
 	"os"
 	"runtime"
 	"sort"
@@ -39,6 +40,12 @@ type Env struct {
 func NewEnv(w *world.World) (*Env, error) {
 	cfg := &config.Config{
 		LocalDeployers: map[string]any{"sim": map[string]any{"deployer_name": "sim"}},
+		// the engine's per-output logging is switched on for the outputs the scripted plugin produces most,
+		// so that the code around it (inside the run lock) is part of every run
+		LoggedOutputConfigs: map[string]*config.StepOutputLogConfig{
+			"success": {LogLevel: log.LevelDebug},
+			"error":   {LogLevel: log.LevelDebug},
+		},
 	}
 	dr := deployerregistry.New(deployer.Any[*world.SimConfig](world.Factory{W: func() *world.World { return w }}))
 	logger := w.Logger()
